@@ -1378,6 +1378,12 @@ func (sc *serverConn) handleHeaderFrame(strm *Stream, fr *FrameHeader) error {
 				return NewResetStreamError(ProtocolError, "invalid content-length")
 			}
 
+			// Several content-length fields must agree (RFC 7230 3.3.2). Letting
+			// the last one win lets a request through whose first one was wrong.
+			if strm.hasContentLength && n != strm.contentLength {
+				return NewResetStreamError(ProtocolError, "conflicting content-length")
+			}
+
 			if sc.maxRequestBodySize > 0 && n > sc.maxRequestBodySize {
 				return NewResetStreamError(EnhanceYourCalm, "request body is too large")
 			}
